@@ -318,6 +318,51 @@ def gen_raman_pump_case(rng):
             'method': rng.choice(['perturbative', 'numerical']), 'order': rng.choice([1, 2, 4])}
 
 
+def gen_grid(rng, m, L):
+    """non-uniform solver grid with z[0] = 0 and lumped factors (1 = none) as RamanSolver hands them to the solvers"""
+    if rng.random() < 0.3:
+        step = L / (m - 1 + rng.random())
+        z = [i * step for i in range(m - 1)] + [L]          # arange-like: uniform but for the last step
+    else:
+        z = sorted([0.0, L] + [rng.uniform(0, L) for _ in range(m - 2)])
+    z = sorted(set(z))
+    ll = [1.0 if rng.random() < 0.75 else rng.uniform(0.5, 0.99) for _ in z]
+    if rng.random() < 0.9:
+        ll[-1] = 1.0
+    if rng.random() < 0.9:
+        ll[0] = 1.0
+    return z, ll
+
+
+def gen_pert_case(rng):
+    n = rng.randint(1, 6)
+    z, ll = gen_grid(rng, rng.randint(2, 40), loguni(rng, 1e3, 1.5e5))
+    return {'kind': 'pert', 'order': rng.choice([0, 1, 1, 2, 2, 3, 4]), 'z': z, 'lumped': ll,
+            'alpha': [rng.uniform(3e-5, 8e-5) for _ in range(n)],
+            'cr': [[0.0 if i == j else rng.uniform(-5e-4, 5e-4) for j in range(n)] for i in range(n)],
+            'p': [loguni(rng, 1e-5, 5e-2) for _ in range(n)]}
+
+
+def gen_iter_case(rng):
+    nco, ncnt = rng.randint(1, 4), rng.randint(1, 3)
+    n = nco + ncnt
+    L = loguni(rng, 5e3, 1.2e5)
+    z, ll = gen_grid(rng, rng.randint(3, 30), L)
+    ll[-1] = 1.0
+    alpha = [rng.uniform(3e-5, 8e-5) for _ in range(n)]
+    cr = [[0.0 if i == j else rng.uniform(-2e-4, 2e-4) * (1.0 if (i < nco) == (j < nco) else 2.0) for j in range(n)] for i in range(n)]
+    p_in = [loguni(rng, 1e-5, 5e-3) for _ in range(nco)] + [rng.uniform(0.02, 0.3) for _ in range(ncnt)]
+    # initial guess: plain attenuation, perturbed
+    cols = []
+    for zi in z:
+        col = [p_in[j] * math.exp(-alpha[j] * zi) * rng.uniform(0.8, 1.2) for j in range(nco)] + \
+              [p_in[j] * math.exp(-alpha[j] * (L - zi)) * rng.uniform(0.8, 1.2) for j in range(nco, n)]
+        cols.append(col)
+    cols[0][:nco] = p_in[:nco]
+    cols[-1][nco:] = p_in[nco:]
+    return {'kind': 'iter', 'nco': nco, 'z': z, 'lumped': ll, 'alpha': alpha, 'cr': cr, 'cols': cols}
+
+
 # ------------------------------------------------------------------ Gallina literals
 def coef_lit(lc):
     if isinstance(lc, dict):
@@ -345,6 +390,25 @@ def fiber_lit(p, lib=None):
     return (f"(mkFiber {qlit(p['length'])} {'true' if p['length_units'] == 'km' else 'false'} {qlit(p.get('att_in', 0))} "
             f"{qlit(p['con_in'])} {qlit(p['con_out'])} ({coef_lit(p['loss_coef'])}) {lum} {qlit(ref_frequency(p))} ({disp}) "
             f"{qlit(p.get('pmd_coef', lib.get('pmd_coef')))} {qlit(N1)})")
+
+
+def hexf(x):
+    x = float(x)
+    if x != x or x in (math.inf, -math.inf):
+        raise ValueError('non-finite literal')
+    return f'({x.hex()})' if x >= 0 else f'(-{(-x).hex()})'
+
+
+def flist(xs):
+    return listlit([hexf(x) for x in xs])
+
+
+def parse_f(s):
+    """NumRun.fstr: 'm:e' = m * 2^e, or nan / inf / -inf"""
+    if s in ('nan', 'inf', '-inf'):
+        return float(s)
+    m, e = s.split(':')
+    return math.ldexp(int(m), int(e))
 
 
 def dbm(p_watt):
@@ -797,6 +861,43 @@ def drive_euler(ctx, case, sim):
     return term, power[:, -1].tolist()
 
 
+def drive_pert(ctx, case, sim):
+    from gnpy.core.science_utils import RamanSolver
+    sim.set(flag=True, method='perturbative', order=case['order'])
+    try:
+        power = RamanSolver.calculate_unidirectional_stimulated_raman_scattering(
+            np.array(case['p']), np.array(case['alpha']), np.array(case['cr']), np.array(case['z']), np.array(case['lumped']))
+    finally:
+        sim.set()
+    grid = listlit([f'({hexf(a)}, {hexf(b)})' for a, b in zip(case['z'], case['lumped'])])
+    term = (f"run_pert {case['order']}%Z {flist(case['alpha'])} {listlit([flist(r) for r in case['cr']])} {grid} {flist(case['p'])}")
+    return term, power.T.tolist()          # list of columns
+
+
+class _FiberStub:
+    def __init__(self, alpha, cr):
+        self._alpha, self._cr = np.array(alpha), np.array(cr)
+
+    def alpha(self, frequency):
+        return self._alpha
+
+    def cr(self, frequency):
+        return self._cr
+
+
+def drive_iter(ctx, case, sim):
+    from gnpy.core.science_utils import RamanSolver
+    nco = case['nco']
+    cols = np.array(case['cols']).T           # waves x z
+    n = cols.shape[0]
+    co, cnt = RamanSolver.iterative_algorithm(cols[:nco].copy(), cols[nco:].copy(), np.zeros(nco), np.zeros(n - nco),
+                                              np.array(case['z']), _FiberStub(case['alpha'], case['cr']), np.array(case['lumped']))
+    out = np.concatenate((co, cnt), axis=0)
+    term = (f"run_iter {nco}%nat {flist(case['alpha'])} {listlit([flist(r) for r in case['cr']])} {flist(case['z'])} "
+            f"{flist(case['lumped'])} {listlit([flist(c) for c in case['cols']])}")
+    return term, out.T.tolist()
+
+
 # ---- Raman on: numerical tests
 def raman_fiber(params, pumps=None):
     from gnpy.core.elements import Fiber, RamanFiber
@@ -987,6 +1088,35 @@ def drive_raman_pump(ctx, case, sim):
                       f"tolerance {RAMAN_ITER_TOL_DB} dB", cs)
 
 
+def diff_float_profile(ctx, how, c, impl, model):
+    """binary64 model (same operations, possibly another summation order / exp implementation) vs numpy: 1e-9 relative"""
+    cs = strip(c)
+    corr = 'corr:RamanSolver perturbative' if how == 'pert' else 'corr:RamanSolver.iterative_algorithm'
+    parts = model.split('#')
+    cols = [[parse_f(x) for x in col.split(',')] for col in parts[0].split(';')] if parts[0] else []
+    ok = len(cols) == len(impl) and all(len(a) == len(b) for a, b in zip(cols, impl))
+    worst = None
+    if ok:
+        for i, (a, b) in enumerate(zip(impl, cols)):
+            for j, (x, y) in enumerate(zip(a, b)):
+                if not (close(x, y, 1e-9, 1e-300) or (x != x and y != y)):
+                    worst = (i, j, x, y)
+                    break
+            if worst:
+                break
+    if ok and not worst:
+        return
+    if how == 'iter' and len(parts) == 4:
+        res, acc = parse_f(parts[2]), parse_f(parts[3])
+        ctx.extra.setdefault('iter_iterations', []).append(int(parts[1]))
+        if abs(res - 1e-6) < 1e-9 * 1e-6 or abs(acc - 1e-3) < 1e-9 * 1e-3:
+            ctx.count('iter_threshold_tie_skipped')
+            return
+    ctx.corr_break(corr, 'power profile differs' + (f' first at grid point {worst[0]}, wave {worst[1]}: implementation {worst[2]!r}, '
+                   f'model {worst[3]!r}' if worst else ' in shape'), cs, impl=impl[worst[0]] if worst else None,
+                   model=cols[worst[0]] if worst else None)
+
+
 # ------------------------------------------------------------------ run
 def run(ctx):
     logging.disable(logging.CRITICAL)
@@ -1014,10 +1144,13 @@ def run(ctx):
         cases += [gen_path_case(rng, eq0, max_units=rng.choice([3, 4, 4])) for _ in range(ctx.scale(6, 60))]
         cases += [gen_merge_case(rng) for _ in range(ctx.scale(100, 1500))]
         cases += [gen_euler_case(rng) for _ in range(ctx.scale(40, 500))]
+        cases += [gen_pert_case(rng) for _ in range(ctx.scale(60, 800))]
+        cases += [gen_iter_case(rng) for _ in range(ctx.scale(40, 500))]
         cases += [gen_raman_low_case(rng) for _ in range(ctx.scale(20, 300))]
         cases += [gen_raman_cmp_case(rng) for _ in range(ctx.scale(6, 60))]
         cases += [gen_raman_pump_case(rng) for _ in range(ctx.scale(16, 200))]
     terms, post = [], []
+    fterms, fpost = [], []          # binary64 (NumF) terms
     with Sim() as sim:
         sim.set()                                   # Raman off, default NLI
         tkind = {}
@@ -1072,6 +1205,17 @@ def run(ctx):
                 ctx.case(cs, True)
                 terms.append(term)
                 post.append(('euler', c, impl))
+            elif kind == 'pert':
+                term, impl = drive_pert(ctx, c, sim)
+                ctx.case(cs, True)
+                ctx.count('pert_order_%d' % c['order'])
+                fterms.append(term)
+                fpost.append(('pert', c, impl))
+            elif kind == 'iter':
+                term, impl = drive_iter(ctx, c, sim)
+                ctx.case(cs, True)
+                fterms.append(term)
+                fpost.append(('iter', c, impl))
             elif kind == 'raman_low':
                 term, impl = drive_raman_low(ctx, c, sim)
                 ctx.case(cs, True)
@@ -1098,7 +1242,11 @@ def run(ctx):
     terms = [terms[i] for i in order]
     post = [post[i] for i in order]
     lines = common.coq_eval('C05', 'Prelude Model.Fiber Run.C05', terms, per_file=ctx.scale(10, 40), prelude='Open Scope Q_scope.')
+    flines = common.coq_eval('C05', 'Prelude Num NumRun Model.Raman Run.C05F', fterms, per_file=ctx.scale(8, 40), tag='fcases',
+                             prelude='Open Scope float_scope.')
     ctx.extra['coq_eval_seconds'] = round(time.time() - t_coq, 2)
+    for (how, c, impl), model in zip(fpost, flines):
+        diff_float_profile(ctx, how, c, impl, model)
     for (how, c, impl), model in zip(post, lines):
         if callable(how):
             how(ctx, c, impl, model)
